@@ -1316,6 +1316,12 @@ func (fr *Frame) unop(t *ssa.UnOp) {
 	vc := fr.vc
 	switch t.Op {
 	case token.MUL: // load
+		if g, ok := t.X.(*ssa.Global); ok {
+			if f := vc.constFuncGlobal(g); f != nil {
+				fr.vals[t] = Val{T: vc.funcConst(f), Clo: &closureVal{fn: f}}
+				return
+			}
+		}
 		if a := fr.val(t.X); a.Cell != nil {
 			fr.vals[t] = fr.cellGet(a.Cell)
 			return
@@ -1368,12 +1374,50 @@ func (fr *Frame) load(addr ssa.Value, pos token.Pos) Term {
 		st := vc.rt(fa.X.Type()).Underlying().(*types.Pointer).Elem()
 		return vc.loadField(fr.st, fr.term(fa.X), st, fa.Field)
 	}
-	if g, ok := addr.(*ssa.Global); ok {
-		_ = g
-	}
 	p := fr.term(addr)
 	fr.checkNonNil(addr, p, pos)
 	return vc.loadAt(fr.st, p, et)
+}
+
+// constFuncGlobal resolves a package-level variable of function type that is assigned exactly
+// once (in the package initialiser) to a function.
+func (vc *VC) constFuncGlobal(g *ssa.Global) *ssa.Function {
+	if f, ok := vc.funcGlobals[g]; ok {
+		return f
+	}
+	if vc.funcGlobals == nil {
+		vc.funcGlobals = map[*ssa.Global]*ssa.Function{}
+	}
+	var found *ssa.Function
+	n := 0
+	for _, m := range vc.L.SPkg.Members {
+		fn, ok := m.(*ssa.Function)
+		if !ok {
+			continue
+		}
+		var visit func(f *ssa.Function)
+		visit = func(f *ssa.Function) {
+			for _, b := range f.Blocks {
+				for _, ins := range b.Instrs {
+					if st, ok := ins.(*ssa.Store); ok && st.Addr == g {
+						n++
+						if fv, ok := st.Val.(*ssa.Function); ok {
+							found = fv
+						}
+					}
+				}
+			}
+			for _, a := range f.AnonFuncs {
+				visit(a)
+			}
+		}
+		visit(fn)
+	}
+	if n != 1 {
+		found = nil
+	}
+	vc.funcGlobals[g] = found
+	return found
 }
 
 func (fr *Frame) store(addr ssa.Value, v Val, pos token.Pos) {
